@@ -259,6 +259,11 @@ def value_alphabet():
         "list-with-None": [1.0, None, 2.0],
         "list-of-np-floats": [np.float64(1.0), np.float64(np.nan)],
         "empty-list": [],
+        "list-of-ints": [1, 2, 3],
+        "list-int-then-float": [0, 0.5],
+        "list-int-float-int": [1, 2.5, 10],
+        "list-np-int-then-float": [np.int64(1), 0.5, np.float32(0.25)],
+        "list-float-then-int": [0.5, 3],
         "nested-dict": {"a": 1.0, "b": {"c": None, "d": np.float64(2.0)}},
         "timedelta-seconds": datetime.timedelta(seconds=1.25).total_seconds(),
     }
